@@ -104,7 +104,7 @@ def main():
                 "evidence_file": f"evidence/{pid}.json",
                 "replay_cmd_template": f"./check {pid} --replay {{path}}",
                 "engine": "pbt",
-                "level_claimed": {"category": cat, "text": text, "design_ref": f"DESIGN.md section {ref}"},
+                "level_claimed": {"category": cat, "text": text, "design_ref": "DESIGN.md section 3 (row " + ref.split("/")[1] + ")"},
                 "level_note": note,
                 "technique": tech,
             })
